@@ -578,6 +578,8 @@ func (m *M) spec(route string, a Args) (routeSpec, url.Values, map[string]string
 		return routeSpec{"GET", "/lockmw/x", ""}, q, nil
 	case "confirmmw":
 		return routeSpec{"GET", "/confirmmw/x", ""}, q, nil
+	case "rootmw":
+		return routeSpec{"GET", "/", ""}, q, nil
 	}
 	return routeSpec{"GET", "/auth/nope", ""}, q, nil
 }
